@@ -897,6 +897,19 @@ class Interp:
             c.assume(Forall(lambda k: Implies(And(in_range(k, b.count), B(eq(k))), r), triggers=[], name="member.intro"))
             c.index_terms.append(w)
             return r if op == "In" else Not(r)
+        if op in ("Eq", "NotEq") and isinstance(a, SymList) and isinstance(b, SymList):
+            # list equality: same length and equal elements (a universally quantified condition: truth() forks on it)
+            a0, b0 = SymList(a.count, a.at), SymList(b.count, b.at)
+            trig = []
+            for lst in (a0, b0):
+                pr = lst.at(z3.Int("probe"))
+                if is_sym(pr) and z3.is_app(pr) and pr.num_args() == 1 and pr.decl().kind() == z3.Z3_OP_UNINTERPRETED:
+                    trig.append(pr.decl())
+            eq = Forall(lambda k: And(I(a0.count) == I(b0.count), Implies(in_range(k, a0.count), B(M.scalar_cmp("Eq", a0.at(k), b0.at(k))))),
+                        triggers=trig, name="list.equal")
+            if op == "Eq":
+                return eq
+            raise Unsupported("!= on lists of symbolic length")
         if op in ("In", "NotIn"):
             if isinstance(b, (list, tuple, dict, str, set)) and not is_sym(a):
                 r = a in b
@@ -975,6 +988,9 @@ class Interp:
                 k = conc(idx.stop)
                 if isinstance(k, int) and k >= 0:
                     return SymList(conc(Min(obj.count, k)), obj.at)
+                if is_sym(k):
+                    # lst[:k] for a symbolic k: CPython clamps (a negative k counts from the end)
+                    return SymList(conc(Ite(I(k) >= 0, Min(obj.count, k), Max(I(obj.count) + I(k), 0))), obj.at)
             raise Unsupported("slice of a list of symbolic length")
         if isinstance(obj, SymList):
             k = idx
